@@ -66,6 +66,7 @@ type loopSpec struct {
 	ghosts   []*clause // kind "ghost": label = name, e = initial value (evaluated at loop entry)
 	steps    []*clause // kind "step": label = name, e = new value (evaluated at every back edge)
 	uses     []*clause // lemma/axiom instances assumed at the loop head
+	backUses []*clause // proof steps taken at every back edge, before the invariants are checked
 	bodyUses []*clause // proof steps taken when the loop body is entered (loop condition known)
 }
 
@@ -100,6 +101,7 @@ type funcContract struct {
 	noframe  bool
 	rawParams map[string]bool
 	readsMem []*clause // each: exprs[0]=lo, exprs[1]=hi
+	guards   []*clause // e = condition, exprs = guarded locations (type-level entries)
 	neverReturns bool
 }
 
@@ -134,7 +136,7 @@ type pkgContracts struct {
 	text     string
 }
 
-var kwRe = regexp.MustCompile(`^(mode|rawfield|spec|pred|ufun|axiom|lemma|func|property|trusted|requires|ensures|deep|modifies|inline|loop|at|maypanic|panics-unless|seam|opaque|using|by|noframe|raw|noreturn|ghost|reads)\b`)
+var kwRe = regexp.MustCompile(`^(mode|rawfield|spec|pred|ufun|axiom|lemma|func|property|trusted|requires|ensures|deep|modifies|inline|loop|at|maypanic|panics-unless|seam|opaque|using|by|noframe|raw|noreturn|ghost|reads|guard)\b`)
 
 func loadContracts(dir, pkgPath string) (*pkgContracts, error) {
 	file := filepath.Join(dir, "zz_contracts_verif.go")
@@ -231,7 +233,7 @@ func loadContracts(dir, pkgPath string) (*pkgContracts, error) {
 			if curSpec == nil {
 				return nil, fail("`using` outside lemma")
 			}
-			for _, p := range splitTop(rest, ',') {
+			for _, p := range splitTop(rest, ';') {
 				e, err := parseSexpr(p)
 				if err != nil {
 					return nil, fail("%v", err)
@@ -287,6 +289,25 @@ func (fc *funcContract) addClause(kw, rest string, line int) error {
 		fc.noframe = true
 	case "noreturn":
 		fc.neverReturns = true
+	case "guard":
+		// guard <cond> : T.f, elems(T), ...
+		i := strings.LastIndex(rest, " : ")
+		if i < 0 {
+			return fmt.Errorf("guard <cond> : <locations>")
+		}
+		ce, err := parseSexpr(rest[:i])
+		if err != nil {
+			return err
+		}
+		c := &clause{kind: "guard", e: ce, src: rest, line: line}
+		for _, p := range splitTop(rest[i+3:], ',') {
+			le, err := parseSexpr(p)
+			if err != nil {
+				return err
+			}
+			c.exprs = append(c.exprs, le)
+		}
+		fc.guards = append(fc.guards, c)
 	case "reads":
 		// reads mem(lo, hi) [, mem(lo, hi) ...]
 		for _, p := range splitTop(rest, ';') {
@@ -383,7 +404,7 @@ func (fc *funcContract) addClause(kw, rest string, line int) error {
 			hint = rest[len(m0):end]
 			rest = strings.TrimSpace(m0[:len(m0)-1]) + " " + rest[end+1:]
 		}
-		m := regexp.MustCompile(`^(\d+)\s*()()(invariant|unroll|decreases|ghost|step|use|inbody)\s*(.*)$`).FindStringSubmatch(rest)
+		m := regexp.MustCompile(`^(\d+)\s*()()(invariant|unroll|decreases|ghost|step|use|inbody|backedge)\s*(.*)$`).FindStringSubmatch(rest)
 		if m == nil {
 			return fmt.Errorf("bad loop clause: %s", rest)
 		}
@@ -435,8 +456,8 @@ func (fc *funcContract) addClause(kw, rest string, line int) error {
 			} else {
 				ls.steps = append(ls.steps, c)
 			}
-		case "use", "inbody":
-			if m[4] == "inbody" {
+		case "use", "inbody", "backedge":
+			if m[4] != "use" {
 				m[5] = strings.TrimSpace(strings.TrimPrefix(strings.TrimSpace(m[5]), "use"))
 			}
 			c := &clause{kind: "use", src: m[5], line: line}
@@ -449,6 +470,8 @@ func (fc *funcContract) addClause(kw, rest string, line int) error {
 			}
 			if m[4] == "inbody" {
 				ls.bodyUses = append(ls.bodyUses, c)
+			} else if m[4] == "backedge" {
+				ls.backUses = append(ls.backUses, c)
 			} else {
 				ls.uses = append(ls.uses, c)
 			}
@@ -484,6 +507,16 @@ func (fc *funcContract) addClause(kw, rest string, line int) error {
 		case "use":
 			c := &clause{kind: "use", src: b2, line: line}
 			for _, p := range splitTop(b2, ';') {
+				e, err := parseSexpr(p)
+				if err != nil {
+					return err
+				}
+				c.exprs = append(c.exprs, e)
+			}
+			ss.clauses = append(ss.clauses, c)
+		case "inst":
+			c := &clause{kind: "inst", src: b2, line: line}
+			for _, p := range splitTop(b2, ',') {
 				e, err := parseSexpr(p)
 				if err != nil {
 					return err
